@@ -75,28 +75,48 @@ static void do_parse(char *hex)
 	free(ln0);
 }
 
+static void set_lines(int len)
+{
+	int i;
+	struct sbuf *sb = sbuf_make();
+	for (i = 0; i < len; i++)
+		sbuf_chr(sb, '\n');
+	lbuf_edit(xb, sbuf_buf(sb), 0, lbuf_len(xb));
+	sbuf_free(sb);
+}
+
+/* the real ex_exec on a line that, if it is parsed at all, moves the current line of a 5-line buffer from 0 to 2 */
 static void do_exec(char *hex)
 {
 	int len, ret;
 	char *raw = pu_unhex(hex, &len, 0, 0);
 	char *ln = exact(raw, strlen(raw));
-	printf("[");
-	ret = ex_exec(ln);
-	printf("] %d\n", ret);
+	set_lines(5);
+	xrow = 0;
+	{	/* what the command prints is not part of the observation */
+		int save, nul;
+		fflush(stdout);
+		save = dup(1);
+		nul = open("/dev/null", O_WRONLY);
+		dup2(nul, 1);
+		ret = ex_exec(ln);
+		fflush(stdout);
+		dup2(save, 1);
+		close(save);
+		close(nul);
+	}
+	printf("%d xrow=%d\n", ret, xrow);
+	xrow = 0;
 	free(raw);
 	free(ln);
 }
 
 static void do_region(int len, int row, char *hex)
 {
-	int n, i, beg = 0, end = 0, ret;
+	int n, beg = 0, end = 0, ret;
 	char *raw = pu_unhex(hex, &n, 0, 0);
 	char *loc = exact(raw, strlen(raw));
-	struct sbuf *sb = sbuf_make();
-	for (i = 0; i < len; i++)
-		sbuf_chr(sb, '\n');
-	lbuf_edit(xb, sbuf_buf(sb), 0, lbuf_len(xb));
-	sbuf_free(sb);
+	set_lines(len);
 	xrow = row;
 	ret = ex_region(loc, &beg, &end);
 	if (ret)
